@@ -153,6 +153,24 @@ def barriers(ctx, tk):
                 tm = fa.term(n.ast.value, n)
                 if tm.k == "cmp" and tm.a[0] in ("!=", "=="):
                     _u6_last_axis(ctx, "C17.i", f, tm, n.ast)
+            # the boundary keep-mask is "first boundary, then one per kept run": the complete run mask written behind a leading True.
+            # A run mask cut at either end (mask[..., :-1] stored into [1:-1]) keeps a boundary for a run whose value is dropped
+            if n.kind == "stmt" and isinstance(n.ast, ast.Assign) and isinstance(n.ast.targets[0], ast.Subscript) and isinstance(n.ast.value, (ast.Subscript, ast.Name)):
+                tg = n.ast.targets[0]
+                def last_slice(e):
+                    sl = e.slice
+                    if isinstance(sl, ast.Tuple) and sl.elts:
+                        sl = sl.elts[-1]
+                    return sl if isinstance(sl, ast.Slice) else None
+                ts = last_slice(tg)
+                vs = last_slice(n.ast.value) if isinstance(n.ast.value, ast.Subscript) else None
+                if ts is not None and isinstance(ts.lower, ast.Constant) and ts.lower.value == 1:
+                    full_target = ts.upper is None
+                    cut_value = vs is not None and (vs.lower is not None or vs.upper is not None)
+                    ctx.decide("C17.i", f, "boundaries and run values are filtered by the same run mask (one leading boundary plus one boundary per kept run)",
+                               False if (cut_value or not full_target) else True,
+                               "`%s`: the boundary mask covers another set of runs than the value mask - a run whose value is dropped keeps its boundary (or the reverse), "
+                               "so a row ends up with as many boundaries as values" % ast.unparse(n.ast), node=n.ast, key="mask-pair", engine="E5")
 
 
 def _u6_last_axis(ctx, rule, f, cmp_t, node):
